@@ -167,6 +167,10 @@ func c04RunSeq(seq []inItem, chunk int, withHandler, stepwise bool) (sig, detail
 		tr.Mu.Unlock()
 	}
 	if err := scen.Barrier(cli); err != nil {
+		if scen.IsDeadline(err) && !scen.CertifyStuck(tr, conn) {
+			cli.Close()
+			return "harness", "barrier watchdog fired while still making progress", stats, tr.Dump(40)
+		}
 		return fail("link-ended-on-wellformed-input", "well-formed inbound sequence ended the connection: %v (Err=%v)", err, cli.Err())
 	}
 	// actual timeline: handler enter/exit and ack writes after start
